@@ -147,7 +147,7 @@ def run_jobs(prop, jobs, seed, crash_is_violation, crash_class_codes=None, max_r
                     if l.startswith('VF-FAIL'):
                         rec['msg'] = l.split('msg=', 1)[-1]
             out_all.append(rec)
-            if kind != 'crash':
+            if kind != 'crash' or (crash_is_violation and crash_class_codes is None):
                 break
         return out_all
 
